@@ -6,6 +6,9 @@ from props import C07
 from props import evalcommon as E
 
 RULE = (
+    "histories of explode / H.substitute / foreach whose predicate / expand / callback raises (ValueError, TypeError, KeyError, LookupError, "
+    "ZeroDivisionError, AttributeError, AssertionError, IndexError, StopIteration, user Exception / BaseException / RuntimeError subclasses) "
+    "followed by probes judged by the re-roll process; "
     "cases = corpus + seeded histories: a recursive program (as C07) whose callback tables also raise at arbitrary table "
     "positions — Exception subclasses, RuntimeError subclasses, BaseException subclasses (non-Exception), ValueError, "
     "RecursionError — at the top level, in nested evaluations and while pool rolls are enumerated; a history of 2..5 top-level "
@@ -16,13 +19,81 @@ TRUSTED = C07.TRUSTED
 ASSUMPTIONS = C07.ASSUMPTIONS
 EXPLANATION = "theorems C14_context_restored (all fuel, callbacks, abort points), C14_history_fresh, C14_error_propagates, C14_recursion_error_to_sentinel"
 
-impl = E.run_impl
-model = E.model_line
 model_post = E.model_post
+
+
+def impl(case):
+    if case["k"] == "xs":
+        return _xs_impl(case)
+    return E.run_impl(case)
+
+
+def model(case):
+    if case["k"] == "xs":
+        return None  # judged step by step against the re-roll process (C08's first-principles oracle)
+    return E.model_line(case)
+
+
+# ---- histories through explode / substitute / foreach whose user callables raise -----------------
+
+
+def _xs_impl(case):
+    import operator
+    import warnings
+
+    from dyce import H
+    from dyce.evaluation import explode, foreach
+
+    h = H([(o, c) for o, c in case["h"]])
+    faces = set(case["faces"])
+    outs = []
+    for st in case["steps"]:
+        raised = []
+
+        def trig(outcome, st=st, raised=raised):
+            if st["raise_at"] is not None and outcome == st["raise_at"]:
+                e = E.make_exc(st["exc"])
+                raised.append(e)
+                raise e
+
+        try:
+            with warnings.catch_warnings():
+                warnings.simplefilter("ignore")
+                if st["api"] == "explode":
+                    r = explode(h, lambda res: (trig(res.outcome), res.outcome in faces)[1], limit=st["n"])
+                elif st["api"] == "foreach":
+                    r = foreach(lambda res: (trig(res.outcome), res.outcome)[1], h)
+                else:
+                    r = h.substitute(lambda hh, o: (trig(o), hh if o in faces else o)[1], operator.__add__, max_depth=st["n"])
+            outs.append(E.fmt_h(r))
+        except BaseException as e:  # noqa: B902
+            if isinstance(e, (KeyboardInterrupt, SystemExit, C.CaseTimeout)):
+                raise
+            s = E.exc_str(e)
+            if raised and isinstance(getattr(e, "tag", None), int) and e is not raised[-1]:
+                s += " (not the raised object)"
+            outs.append(s)
+    return " ; ".join(outs)
+
+
+def _xs_oracle(case):
+    from props import C08
+
+    outs = []
+    for st in case["steps"]:
+        if st["raise_at"] is not None:
+            outs.append(E.exc_str(E.make_exc(st["exc"])))
+        elif st["api"] == "foreach":
+            outs.append(E.fmt_dist(E.dist_of_items(case["h"])))
+        else:
+            outs.append(E.fmt_dist(C08.spec_explode(case["h"], set(case["faces"]), ("i", st["n"]))))
+    return " ; ".join(outs)
 
 
 def oracle(case):
     """every call judged alone, from a fresh interpreter (the sentence of the property)"""
+    if case["k"] == "xs":
+        return _xs_oracle(case)
     outs = []
     for call in case["calls"]:
         r = E.run_reference(dict(case, calls=[call]))
@@ -32,7 +103,27 @@ def oracle(case):
     return " ; ".join(outs)
 
 
+def known_finding(case, got, exp, known):
+    """F12: a callback raising StopIteration — the evaluator calls callbacks inside a generator, so the interpreter
+    (PEP 479) turns it into RuntimeError; every OTHER difference is still reported"""
+    g, e = got.split(" ; "), (exp or "").split(" ; ")
+    if len(g) != len(e):
+        return None
+    diff = [(a, b) for a, b in zip(g, e) if a != b]
+    if diff and all(b == "err User7" and a in ("err RuntimeError", "err Other:RuntimeError") for a, b in diff):
+        for k in known:
+            if k.get("match", {}).get("exception") == "StopIteration":
+                return k
+    return None
+
+
 def classify(case, got):
+    if case["k"] == "xs":
+        return "xs/" + "+".join(sorted({st["api"] for st in case["steps"]}))
+    return _classify_hist(case, got)
+
+
+def _classify_hist(case, got):
     parts = got.split(" ; ")
     nerr = sum(1 for p in parts if p.startswith("err"))
     kinds = sorted({("User" if "User" in p else p.split()[1]) for p in parts if p.startswith("err") and len(p.split()) > 1})
@@ -51,10 +142,37 @@ def nontrivial(case, got):
 
 
 describe = C07.describe
-shrink = C07.shrink
+
+
+def shrink(case):
+    if case["k"] == "xs":
+        st = case["steps"]
+        for j in range(len(st)):
+            if len(st) > 1:
+                yield dict(case, steps=st[:j] + st[j + 1 :])
+        return
+    yield from C07.shrink(case)
+
+
+def _gen_xs(rnd):
+    import gen
+
+    items = [[o, c] for o, c in ((int(o.split(":")[1]), c) for o, c in gen.rand_h(rnd, 4, "int", counts=(1, 1, 2, 3))) ]
+    outs = [o for o, _ in items]
+    faces = rnd.sample(outs, rnd.randint(1, max(1, len(outs) - 1)))
+    steps = []
+    for _ in range(rnd.randint(2, 4)):
+        api = rnd.choice(["explode", "explode", "substitute", "foreach"])
+        raising = rnd.random() < 0.5
+        steps.append(dict(api=api, n=rnd.choice([1, 1, 2]), raise_at=rnd.choice(outs) if raising else None,
+                          exc=rnd.choice([1, 2, 2, 3, 4, 5, 6, 8, 9, 10, 20, 30, 7])))
+    steps.append(dict(api=rnd.choice(["explode", "substitute"]), n=rnd.choice([0, 1, 2]), raise_at=None, exc=1))  # a probe that must succeed
+    return dict(k="xs", h=items, faces=faces, steps=steps)
 
 
 def generate(rnd, tier, scale):
+    for _ in range(int((120 if tier == "quick" else 1200) * scale)):
+        yield _gen_xs(rnd)
     n = int((400 if tier == "quick" else 4000) * scale)
     made = tries = 0
     while made < n and tries < 30 * n:
@@ -64,11 +182,13 @@ def generate(rnd, tier, scale):
         for f in fns:
             for j in range(len(f["acts"])):
                 if rnd.random() < 0.22:
-                    f["acts"][j] = ["throw", rnd.choice([0, 0, 1, 10, 11, 12, 20, 21, 30, 31])]
+                    f["acts"][j] = ["throw", rnd.choice([0, 0, 1, 10, 11, 12, 20, 21, 30, 31, 2, 3, 4, 5, 6, 7, 8, 9])]
         calls = []
         for _ in range(rnd.randint(2, 5)):
             calls.append([rnd.randrange(len(fns)), rnd.randrange(len(srclists)), E.rand_limit(rnd, ("none", "int", "int", "frac", "bad"))])
         case = dict(k="hist", sources=sources, srclists=srclists, fns=fns, calls=calls)
+        if rnd.random() < 0.3 and all(sl.get("nkw", 0) <= len(sl["srcs"]) for sl in srclists):
+            case["via"] = "foreach"  # the same histories through evaluation.foreach
         try:
             if oracle(case) is None:
                 continue
